@@ -23,6 +23,8 @@ def run_check(prop, tier, seed):
     models = []
     for m in P.get('models', []):
         r = props.run_model(m, tier, work)
+        if r is None:
+            continue
         models.append(r)
         log('[model] %s: %d distinct / %d generated states in %.1fs' % (m['name'], r['distinct'], r['generated'], r['wall_s']))
 
